@@ -30,6 +30,11 @@ def run_impl(case):
         cur = start + sp
     aw = max(1, (cur - 1).bit_length()) + rnd.randint(0, 2)
     dut = gpio.Peripheral(pin_count=n, addr_width=aw, data_width=dw, input_stages=stages)
+    siblings = []
+    if lib.rng_for(case["seed"], case["idx"], 1656).random() < 0.3:
+        # a SoC builds all its GPIO banks first and elaborates them later: another peripheral is constructed after the one
+        # under test (instances share nothing)
+        siblings.append(gpio.Peripheral(pin_count=(n % 7) + 1, addr_width=8, data_width=rnd.__class__(n).choice([8, 16, 32]), input_stages=(stages + 1) % 3))
     real = {tuple(i.path[0])[0]: (i.start, i.end) for i in dut.bus.memory_map.all_resources()}
     sim = simutil.simulator(simutil.wrap(dut), case)
     sim.add_clock(1e-6)
